@@ -70,7 +70,7 @@ Proof.
   replace (S (length r0) - 1)%nat with (length r0) by lia. rewrite index_app_last. cbn [bind].
   rewrite rev_app_distr. cbn [rev app]. destruct (run_texts l0) as [|c t] eqn:E.
   - rewrite strip_lines_ok. reflexivity.
-  - rewrite slice_to_app. cbn [bind]. rewrite strip_lines_ok, rev_involutive. reflexivity.
+  - rewrite slice_to_pred_app1. cbn [bind]. rewrite strip_lines_ok, rev_involutive. reflexivity.
 Qed.
 
 (* ---- the time boundaries line ---- *)
@@ -131,11 +131,10 @@ Qed.
 Theorem write_srt_c_ok l : write_srt_c l = write_srt l.
 Proof.
   unfold write_srt_c, write_srt. destruct l as [|it r]; [reflexivity|]. cbn [length Nat.eqb].
-  rewrite items_bytes_ok. cbn [bind]. unfold slice_to.
-  destruct (Nat.leb (length (bom ++ items_bytes 0 (it :: r)) - 1) (length (bom ++ items_bytes 0 (it :: r)))) eqn:E;
-    [|apply Nat.leb_gt in E; lia].
-  f_equal. rewrite <- (removelast_app bom (items_bytes_nonnil 0 it r)).
-  rewrite removelast_firstn_len. f_equal; lia.
+  rewrite items_bytes_ok. cbn [bind].
+  assert (Hn : bom ++ items_bytes 0 (it :: r) <> []).
+  { intros E. apply app_eq_nil in E. destruct E as [_ E]. exact (items_bytes_nonnil 0 it r E). }
+  rewrite (slice_to_pred_removelast _ 265 Hn). f_equal; apply (removelast_app bom (items_bytes_nonnil 0 it r)).
 Qed.
 
 (* ---- totality, now with content: no panic site of srt.go is reachable ---- *)
@@ -165,3 +164,87 @@ Theorem nil_items_skipped (l : list sitem) (a b : list (option sitem)) :
 Proof.
   unfold write_srt_items_c. split; [rewrite somes_map_Some; reflexivity|]. rewrite !somes_app. reflexivity.
 Qed.
+
+(* ---- second audit, N6: the guards are load-bearing ----
+   Each function below is the checked function of Model/SrtC.v with ONE guard removed and nothing else changed.  On the
+   input shown it returns Panic at the site the guard stands in front of, while the guarded function returns Ok / Err on
+   the same input: the no-panic theorems above use the guards.  (Go side: the index / slice expressions on these
+   operand lengths do panic, checked with a throw-away program, notes/C01.md N6.) *)
+(* emptiness test before [len-1] and [:len-1]: "if len(s.Lines) != 0" removed (srt.go:67) *)
+Definition finalize_c_noguard (ls : list (list srun)) : res (list (list srun) * str) :=
+  do lastl <- index ls (length ls - 1) 68;
+  match run_texts lastl with
+  | [] => do st <- strip_lines_c ls; Ok (st, [])
+  | idx => do ls' <- slice_to_pred ls 70; do st <- strip_lines_c ls'; Ok (st, idx)
+  end.
+(* the same with the read of the last line removed too, so that only s.Lines = s.Lines[:len(s.Lines)-1] is left: site 70
+   by itself fires on the empty list (with the nat predecessor it returned Ok []) *)
+Definition finalize_c_noguard_slice (ls : list (list srun)) : res (list (list srun) * str) :=
+  do ls' <- slice_to_pred ls 70; do st <- strip_lines_c ls'; Ok (st, []).
+(* length test before index: "if len(s1) < 2" removed (srt.go:87) *)
+Definition srt_timing_c_noguard_split (line : str) : res (str * str) :=
+  let s1 := Str.split arrow line in
+  do r <- index s1 1 92;
+  let s2 := fields r in
+  if Nat.eqb (length s2) 0 then Err EParse else
+  do l <- index s1 0 99;
+  do e <- index s2 0 103;
+  Ok (l, e).
+(* length test before index: "if len(s2) == 0" removed (srt.go:94; the guard the repair of the library added) *)
+Definition srt_timing_c_noguard_fields (line : str) : res (str * str) :=
+  let s1 := Str.split arrow line in
+  if Nat.ltb (length s1) 2 then Err EParse else
+  do r <- index s1 1 92;
+  let s2 := fields r in
+  do l <- index s1 0 99;
+  do e <- index s2 0 103;
+  Ok (l, e).
+(* nil test before dereference: "li.InlineStyle != nil &&" removed in front of *li.InlineStyle.SRTColor (srt.go:286) *)
+Definition run_bytes_c_noguard_nil (r : srun) : res str :=
+  let has := is_some (sr_sty r) in
+  do color <- (do a <- deref (sr_sty r) 286;
+               if is_some (sa_col a) then deref (sa_col a) 287 else Ok []);
+  do b <- (if has then do a <- deref (sr_sty r) 291; Ok (sa_b a) else Ok false);
+  do i <- (if has then do a <- deref (sr_sty r) 292; Ok (sa_i a) else Ok false);
+  do u <- (if has then do a <- deref (sr_sty r) 293; Ok (sa_u a) else Ok false);
+  Ok ((match color with [] => [] | _ => s_font_open ++ color ++ [34; 62] end) ++
+      (if b then tag_open 98 else []) ++ (if i then tag_open 105 else []) ++ (if u then tag_open 117 else []) ++
+      (if sr_pos r =? 0 then [] else [123;92;97;110] ++ itoa (sr_pos r) ++ [125]) ++
+      escape_html (sr_text r) ++
+      (if u then tag_close 117 else []) ++ (if i then tag_close 105 else []) ++ (if b then tag_close 98 else []) ++
+      (match color with [] => [] | _ => s_font_close end)).
+(* "if len(s.Items) == 0 { return ErrNoSubtitlesToWrite }" removed (srt.go:237): NOT a panic guard -- c starts with the
+   three bytes of the BOM, so c[:len(c)-1] is in range: the unguarded writer emits a truncated BOM (the seeded change
+   finds that by its bytes).  Site 265 itself is live: without the BOM as well, c is empty and c[:len(c)-1] panics. *)
+Definition write_srt_c_noguard_empty (l : list sitem) : res str :=
+  do body <- items_bytes_c 0 l;
+  let c := bom ++ body in
+  slice_to_pred c 265.
+Definition write_srt_c_noguard_empty_nobom (l : list sitem) : res str :=
+  do body <- items_bytes_c 0 l;
+  slice_to_pred body 265.
+
+(* loop bound: "j >= 0" removed from "for j := len(Items)-1; j >= 0; j--" (srt.go:134): the argument is j + 1 for the Go
+   int j, so O is j = -1, where the bound stopped the loop; without it the body runs with Items[-1] *)
+Fixpoint strip_items_c_noguard (j : nat) (items : list srun) : res (list srun) :=
+  match j with
+  | O => do k <- idx_pred O 135; do r <- index items k 135; Ok items
+  | S k =>
+    do r <- index items k 135;
+    match sr_text r with
+    | [] => do items' <- slice_to items k 136; strip_items_c_noguard k items'
+    | _ => Ok items
+    end
+  end.
+
+Definition ex_timing_no_end : str := [48;48;58;48;48;58;48;49;44;48;48;48;32;45;45;62].   (* 00:00:01,000 --> *)
+Definition ex_plain_run : srun := mkSrun [97] None 0.
+Lemma srt_guards_load_bearing :
+  (finalize_c_noguard [] = Panic 68 /\ finalize_c_noguard_slice [] = Panic 70 /\ finalize_c [] = Ok ([], [])) /\
+  (srt_timing_c_noguard_split [97] = Panic 92 /\ srt_timing_c [97] = Err EParse) /\
+  (srt_timing_c_noguard_fields ex_timing_no_end = Panic 103 /\ srt_timing_c ex_timing_no_end = Err EParse) /\
+  (run_bytes_c_noguard_nil ex_plain_run = Panic 286 /\ run_bytes_c ex_plain_run = Ok [97]) /\
+  (strip_items_c_noguard 1 [mkSrun [] None 0] = Panic 135 /\ strip_items_c 1 [mkSrun [] None 0] = Ok []) /\
+  (write_srt_c_noguard_empty [] = Ok [239; 187] /\ write_srt_c_noguard_empty_nobom [] = Panic 265 /\
+   write_srt_c [] = Err ENothingToWrite).
+Proof. vm_compute. repeat split. Qed.
